@@ -267,5 +267,64 @@ End: ';';
 """, sentences=["abc;", "abcabc;", "a b c ab;", "ababc ;"], c12="TG", w=False, most_specific=False, longest_match=False,
     w_reason="lexical ambiguity with tokens of different lengths")
 
+# GLR heads of one frontier at *different* input positions (tokens of
+# different lengths recognised at the same place: a keyword and a keyword
+# phrase with inner whitespace), followed by layout.  With a Layout rule the
+# layout parser runs per head; with skip_ws the built-in skipper does.
+PHRASE_LAYOUT = """Layout: LayoutItem*;
+LayoutItem: WS | Comment;
+"""
+PHRASE_LAYOUT_T = """WS: /\\s+/;
+Comment: /#.*/;
+"""
+for lay in (False, True):
+    suffix = "_layout" if lay else "_ws"
+    # a) head split by lexical ambiguity (disambiguation off)
+    add("h_phrase_split" + suffix, None, algo="glr", stem="phrase_split", inline="""S: X Z | Y B Q;
+X: AB;
+Y: A;
+""" + (PHRASE_LAYOUT if lay else "") + """terminals
+A: 'a';
+B: 'b';
+AB: /a\\s+b/;
+Z: 'z';
+Q: 'q';
+""" + (PHRASE_LAYOUT_T if lay else ""),
+        sentences=["a b z", "a b q", "a  b\n z", "a  b\n q", "a b  z", "a b\tq"] + (["a b # c\n z", "a b # c\n q", "# lead\na b # c\n # d\n  q # tail", "a b # c\n z # tail"] if lay else []),
+        invalid=["a b", "a b x", "a b z z", "a b q q", "a q", "ab z"] + (["a b # c\n", "a b # c\n x"] if lay else []),
+        c12="TG", w=False, most_specific=False, longest_match=False,
+        w_reason="lexical ambiguity with tokens of different lengths (phrase token with inner whitespace)")
+    # b) default settings: two heads in different LR states expect tokens of different lengths
+    add("h_phrase_states" + suffix, None, algo="glr", stem="phrase_states", inline="""S: P | N;
+P: PSubj Colon Is Name;
+N: NSubj Colon IsNot Name;
+PSubj: Name;
+NSubj: Name;
+""" + (PHRASE_LAYOUT if lay else "") + """terminals
+Name: /[a-z]+/;
+Colon: ':';
+Is: 'is';
+IsNot: /is\\s+not/;
+""" + (PHRASE_LAYOUT_T if lay else ""),
+        sentences=["a : is n", "a : is not n", "a : is not", "a:is  not   n", "a : is\nnot\nn", "x : is\n not"] + (["a : is # c\n n", "a : is not # c\n n", "a : is not # c", "# l\na : # m\n is not # c\n # d\nn # t\n", "a : is # c\n not"] if lay else []),
+        invalid=["a : is", "a : is not n !", "a : is not n m", "a : not n", "a is n", ": is n"] + (["a : is # c\n", "a : is not n # c\n !", "a : is not # c\n n\n# d\n\n m"] if lay else []),
+        c12="TG", w=False,
+        w_reason="keyword phrase token with inner whitespace: gaps are ambiguous")
+    # c) three lengths at once and a nested list, so that several frontiers in a row are split
+    add("h_phrase_list" + suffix, None, algo="glr", stem="phrase_list", inline="""S: Item+ End;
+Item: A | AB | ABC | B | C;
+""" + (PHRASE_LAYOUT if lay else "") + """terminals
+A: 'a';
+AB: /a\\s*b/;
+ABC: /a\\s*b\\s*c/;
+B: 'b';
+C: 'c';
+End: ';';
+""" + (PHRASE_LAYOUT_T if lay else ""),
+        sentences=["abc;", "a b c;", "a b c a b ;", "ab c a  b  c ;", "a\nb\nc\n;"] + (["a b # x\n c ;", "a # x\n b c # y\n ;", "a b c # x\n a b # y\n c # z\n;"] if lay else []),
+        invalid=["a b c", "a b d ;", "; a"] + (["a b # x\n c", "a b # x\n d ;"] if lay else []),
+        c12="TG", w=False, most_specific=False, longest_match=False,
+        w_reason="lexical ambiguity with tokens of different lengths")
+
 json.dump({"entries": entries}, open(os.path.join(OUT, "manifest.json"), "w"), indent=1, ensure_ascii=False)
 print(len(entries), "entries")
